@@ -234,7 +234,7 @@ class Crate:
                     p = os.path.join(root, f)
                     txt = open(p, encoding="utf-8", errors="replace").read().replace("\r\n", "\n")
                     self._src[os.path.relpath(p, self.src_root)] = txt.split("\n")
-                    for m in re.finditer(r"^\s*pub(?:\([a-z]+\))? type (\w+)\s*=\s*([^;]+);", txt, re.M):
+                    for m in re.finditer(r"^\s*(?:pub(?:\([a-z]+\))? )?type (\w+)\s*=\s*(.+);\s*$", txt, re.M):
                         self.aliases[m.group(1)] = m.group(2).strip()
         for _ in range(3):
             for k, v in list(self.aliases.items()):
@@ -266,6 +266,22 @@ class Crate:
                     fn.key = name
             self.bykey.setdefault(fn.key, fn)
             self.bykey.setdefault(name, fn)
+
+    def find_promoted(self, name):
+        m = re.match(r"(.*)::promoted\[(\d+)\]$", name)
+        if not m:
+            return None
+        owner, idx = m.group(1), m.group(2)
+        mm = re.match(r"(?:.*::)?<impl (?:([\w:]+) for )?(.+?)>::(\w+)$", owner)
+        if mm:
+            trait, ty, meth = mm.group(1), mm.group(2), mm.group(3)
+            key = "<%s as %s>::%s" % (ty, trait.split("::")[-1], meth) if trait else "%s::%s" % (ty, meth)
+        else:
+            key = owner
+        fn = self.find(key)
+        if fn is None:
+            return None
+        return self.fns.get("%s::promoted[%s]" % (fn.name, idx))
 
     def find(self, callee):
         c = callee
@@ -335,6 +351,8 @@ class Ex:
         # named const / promoted: strip an inline ": T = ..." suffix the printer sometimes appends
         name = re.sub(r": .*$", "", t)
         fn = self.crate.find(name)
+        if fn is None and "promoted[" in name:
+            fn = self.crate.find_promoted(name)
         if fn is not None and fn.kind in ("const", "static"):
             v = deep(self.eval_const(fn))
             if isinstance(v, Agg) and v.name == "array" and "promoted" not in name:
@@ -707,7 +725,8 @@ class Ex:
                 elif k == "switch":
                     v = self.operand(frame, term[1])
                     tg = term[2]
-                    bb = self.switch(v, tg)
+                    merged = self.try_diamond(fn, frame, v, tg)
+                    bb = merged if merged is not None else self.switch(v, tg)
                 elif k == "assert":
                     v = self.operand(frame, term[2])
                     neg = term[1]
@@ -741,6 +760,79 @@ class Ex:
                     raise Unsupported("terminator %r" % (term,))
         finally:
             self.callstack.pop()
+
+    def try_diamond(self, fn, frame, v, tg):
+        """symbolic boolean branch whose two arms only assign scalar locals and rejoin at once (the MIR of `a || b`,
+        `a && b`, small if/else): evaluate both arms and merge with if-then-else instead of forking the path"""
+        if not (isinstance(v, Sc) and v.ty == "bool" and not v.conc()):
+            return None
+        if set(tg.keys()) - {"0", "1", "otherwise"} or len(tg) != 2:
+            return None
+        t_bb = int((tg.get("1") or tg.get("otherwise"))[2:])
+        f_bb = int((tg.get("0") or tg.get("otherwise"))[2:])
+        if "0" not in tg and "1" not in tg:
+            return None
+
+        def arm(b):
+            stmts, term = fn.blocks[b]
+            if term[0] != "goto" or len(stmts) > 4:
+                return None
+            for st in stmts:
+                if st[0] in ("rawstmt", "setdiscr") or st[0][0] != "local" or st[1][0] not in ("use", "cast", "bin", "un"):
+                    return None
+            return stmts, int(term[1][2:])
+        at, af = arm(t_bb), arm(f_bb)
+        if at is not None and af is not None and at[1] == af[1]:
+            join = at[1]
+        elif at is not None and at[1] == f_bb:
+            join, af = f_bb, ([], f_bb)
+        elif af is not None and af[1] == t_bb:
+            join, at = t_bb, ([], t_bb)
+        else:
+            return None
+
+        def run_arm(stmts):
+            saved, out = {}, {}
+            try:
+                for place, rv in stmts:
+                    lid = place[1]
+                    if lid not in saved:
+                        saved[lid] = frame[lid].val if lid in frame else None
+                    val = self.rvalue(frame, rv)
+                    if not isinstance(val, Sc):
+                        return None
+                    self.write_at(*self.resolve(frame, place), val)
+                for lid in saved:
+                    out[lid] = frame[lid].val
+            except Unsupported:
+                out = None
+            finally:
+                for lid, old in saved.items():
+                    if lid in frame:
+                        frame[lid].val = old
+            return out
+        ot = run_arm(at[0])
+        of = run_arm(af[0])
+        if ot is None or of is None:
+            return None
+        c = self.dom.boolterm(v)
+        for lid in set(ot) | set(of):
+            cur = frame[lid].val if lid in frame else None
+            a = ot.get(lid, cur)
+            b = of.get(lid, cur)
+            if not (isinstance(a, Sc) and isinstance(b, Sc)):
+                return None
+        for lid in set(ot) | set(of):
+            cur = frame[lid].val if lid in frame else None
+            a = ot.get(lid, cur)
+            b = of.get(lid, cur)
+            if a.conc() and b.conc() and a.v == b.v:
+                frame[lid].val = a
+            elif a.ty == "bool":
+                frame[lid].val = Sc(Sym(z3.If(c, self.dom.term(a), self.dom.term(b))), "bool")
+            else:
+                frame[lid].val = self.dom.ite(c, a, b)
+        return join
 
     def switch(self, v, tg):
         if isinstance(v, Sc) and v.conc():
